@@ -1,17 +1,25 @@
 // c20racer runs the REAL taint driver (taint.Analyze: parallel state initialisation, MapParallel summary workers,
-// BuildGraph incl. the report-summaries writer goroutine, visitor) in-process on one program under one option
-// combination.  It is meant to be built with -race; the race detector's reports go to GORACE log_path files which the
-// check (tools/props/c20.py) parses.  Around the call it measures what the property's last clauses are about:
+// BuildGraph incl. the report-summaries writer goroutine, visitor) in-process on one program under a sequence of
+// option combinations.  It is meant to be built with -race; the race detector's reports go to the GORACE log_path
+// file, which the check (tools/props/c20.py) parses and attributes to runs by the byte offsets printed here.
+// The program is loaded once (loading dominates the cost); every run gets a fresh config, state and reports dir.
 //
-//	G <before> <at-return> <after-settle>            goroutine counts (runtime.NumGoroutine)
-//	F <kind> <file> <size-at-return> <size-after-settle> <sha-after-settle>    every report file
-//	H <kind> <file> <n> <sha of sorted section headers>                         summaries file: section header set
-//	S <number of non-nil summaries in the final flow graph> <sha of their sorted names>
-//	E <sha of the sorted "func:" names expected in a complete summaries report>  (summaries present at BuildGraph time)
-//	T <number of taint flows>
+// Per run k (lines are prefixed with the run index):
 //
-// With -nr >= 0 the pipeline of taint.Analyze is replayed step by step with that numRoutines (Analyze itself hard-wires
-// NumCPU-1); -nr -1 calls taint.Analyze itself.
+//	k BEGIN <options> racelog=<size of the race log before the run>
+//	k G <before> <at-return> <after-settle>            goroutine counts (runtime.NumGoroutine)
+//	k L <stack line>                                   stacks of all goroutines if more are alive after the settle
+//	k F <kind> <file> <size-at-return> <size-after-settle> <sha> <sha of sorted lines>   every report file
+//	k H <kind> <file> <n> <sha of sorted section headers>                                  summaries file sections
+//	k E <expected sections> <missing> <first missing>  (nr>=0 mode) sections a complete summaries report must contain
+//	                                                   = the summaries present when BuildGraph starts
+//	k S <non-nil summaries in the final flow graph> <sha of their sorted names>
+//	k T <number of taint flows | -1>
+//	k END racelog=<size after the run and after the leftover goroutines have finished> waited_ms=<..> g=<..>
+//
+// A run spec is a comma-separated list of: rs (report-summaries) rc (report-coverage) rp (report-paths)
+// od (summarize-on-demand) nr=<n> (replay the steps of taint.Analyze with that numRoutines; Analyze itself hard-wires
+// NumCPU-1).  Runs are separated by ';'.
 package main
 
 import (
@@ -23,6 +31,7 @@ import (
 	"regexp"
 	"runtime"
 	"sort"
+	"strconv"
 	"strings"
 	"time"
 
@@ -68,125 +77,187 @@ func kindOf(name string) string {
 
 var header = regexp.MustCompile(`^[^\t ].*:$`)
 
+func raceLogSize() int64 {
+	for _, kv := range strings.Fields(os.Getenv("GORACE")) {
+		if strings.HasPrefix(kv, "log_path=") {
+			st, err := os.Stat(fmt.Sprintf("%s.%d", strings.TrimPrefix(kv, "log_path="), os.Getpid()))
+			if err == nil {
+				return st.Size()
+			}
+		}
+	}
+	return 0
+}
+
+func summaryNames(state *dataflow.AnalyzerState) []string {
+	var names []string
+	for _, s := range state.FlowGraph.Summaries {
+		if s != nil && s.Parent != nil {
+			names = append(names, s.Parent.String()+":")
+		}
+	}
+	sort.Strings(names)
+	return names
+}
+
 func main() {
 	dir := flag.String("dir", "", "program directory (package main)")
 	cfgPath := flag.String("config", "", "config.yaml (default <dir>/config.yaml)")
-	reports := flag.String("reports", "", "reports directory (created; must be empty)")
-	rs := flag.Bool("report-summaries", false, "")
-	rc := flag.Bool("report-coverage", false, "")
-	rp := flag.Bool("report-paths", false, "")
-	od := flag.Bool("summarize-on-demand", false, "")
-	nr := flag.Int("nr", -1, "numRoutines for the intra-procedural pass (-1: call taint.Analyze itself)")
-	settle := flag.Int("settle-ms", 300, "time to wait after Analyze returned before re-measuring")
+	reports := flag.String("reports", "", "reports directory (one sub-directory per run is created)")
+	runs := flag.String("runs", "", "run specs, e.g. 'rs;rs,rc,rp;od;nr=0'")
+	settle := flag.Int("settle-ms", 300, "time to wait after the analysis returned before re-measuring")
 	flag.Parse()
 	if *cfgPath == "" {
 		*cfgPath = filepath.Join(*dir, "config.yaml")
 	}
-	cfg, err := config.LoadFromFiles(*cfgPath)
-	if err != nil {
-		fmt.Fprintln(os.Stderr, "config:", err)
-		os.Exit(2)
-	}
-	if err := os.MkdirAll(*reports, 0750); err != nil {
-		fmt.Fprintln(os.Stderr, "reports:", err)
-		os.Exit(2)
-	}
-	cfg.ReportsDir = *reports
-	cfg.ReportSummaries = *rs
-	cfg.ReportCoverage = *rc
-	cfg.ReportPaths = *rp
-	cfg.SummarizeOnDemand = *od
-	cfg.LogLevel = int(config.ErrLevel)
-
 	prog, pkgs, err := hutil.LoadDir(*dir, true)
 	if err != nil {
 		fmt.Fprintln(os.Stderr, "load:", err)
 		os.Exit(2)
 	}
+	fmt.Println("LOADED")
 
-	runtime.GC()
-	time.Sleep(20 * time.Millisecond)
-	g0 := runtime.NumGoroutine()
-
-	var state *dataflow.AnalyzerState
-	nflows := 0
-	if *nr < 0 {
-		res, err := taint.Analyze(cfg, prog, pkgs)
+	for k, spec := range strings.Split(*runs, ";") {
+		p := func(format string, a ...interface{}) { fmt.Printf("%d "+format+"\n", append([]interface{}{k}, a...)...) }
+		cfg, err := config.LoadFromFiles(*cfgPath)
 		if err != nil {
-			fmt.Fprintln(os.Stderr, "analyze:", err)
+			fmt.Fprintln(os.Stderr, "config:", err)
+			os.Exit(2)
 		}
-		state = res.State
-		if res.TaintFlows != nil {
-			for _, srcs := range res.TaintFlows.Sinks {
-				nflows += len(srcs)
+		rdir := filepath.Join(*reports, strconv.Itoa(k))
+		if err := os.MkdirAll(rdir, 0750); err != nil {
+			fmt.Fprintln(os.Stderr, "reports:", err)
+			os.Exit(2)
+		}
+		cfg.ReportsDir = rdir
+		cfg.LogLevel = int(config.ErrLevel)
+		nr := -1
+		for _, o := range strings.Split(strings.TrimSpace(spec), ",") {
+			switch {
+			case o == "rs":
+				cfg.ReportSummaries = true
+			case o == "rc":
+				cfg.ReportCoverage = true
+			case o == "rp":
+				cfg.ReportPaths = true
+			case o == "od":
+				cfg.SummarizeOnDemand = true
+			case strings.HasPrefix(o, "nr="):
+				nr, _ = strconv.Atoi(o[3:])
+			case o == "" || o == "none":
+			default:
+				fmt.Fprintln(os.Stderr, "unknown option", o)
+				os.Exit(2)
 			}
 		}
-	} else {
-		// the steps of taint.Analyze with an explicit numRoutines
-		state, err = dataflow.NewInitializedAnalyzerState(prog, pkgs, config.NewLogGroup(cfg), cfg)
-		if err != nil {
-			fmt.Fprintln(os.Stderr, "state:", err)
-			os.Exit(2)
-		}
-		if err := taint.AnalysisPreamble(state); err != nil {
-			fmt.Fprintln(os.Stderr, "preamble:", err)
-			os.Exit(2)
-		}
-		analysis.RunIntraProceduralPass(state, *nr, analysis.IntraAnalysisParams{
-			ShouldBuildSummary: dataflow.ShouldBuildSummary, ShouldTrack: taint.IsNodeOfInterest})
-		nflows = -1
-		for i := range state.Config.TaintTrackingProblems {
-			spec := &state.Config.TaintTrackingProblems[i]
-			visitor := taint.NewVisitor(spec)
-			analysis.RunInterProcedural(state, visitor, analysis.InterProceduralParams{
-				IsEntrypoint: func(node ssa.Node) bool { return taint.IsSourceNode(state, spec, node) }})
-		}
-	}
-	// ---- the analysis has returned: everything below is "after return"
-	g1 := runtime.NumGoroutine()
-	atReturn := listReports(*reports)
-	time.Sleep(time.Duration(*settle) * time.Millisecond)
-	g2 := runtime.NumGoroutine()
-	after := listReports(*reports)
-	fmt.Printf("G %d %d %d\n", g0, g1, g2)
-	if g2 > g0 {
-		buf := make([]byte, 1<<20)
-		n := runtime.Stack(buf, true)
-		for _, l := range strings.Split(string(buf[:n]), "\n") {
-			fmt.Printf("L %s\n", l)
-		}
-	}
-	sizeAt := map[string]int64{}
-	for _, f := range atReturn {
-		sizeAt[f.name] = f.size
-	}
-	for _, f := range after {
-		b, _ := os.ReadFile(filepath.Join(*reports, f.name))
-		at, ok := sizeAt[f.name]
-		if !ok {
-			at = -1
-		}
-		fmt.Printf("F %s %s %d %d %s\n", kindOf(f.name), f.name, at, f.size, sha(string(b)))
-		if kindOf(f.name) == "summaries" {
-			var hs []string
-			for _, l := range strings.Split(string(b), "\n") {
-				if header.MatchString(l) && !strings.HasPrefix(l, "subgraph") && l != "}" {
-					hs = append(hs, l)
+		runtime.GC()
+		time.Sleep(20 * time.Millisecond)
+		g0 := runtime.NumGoroutine()
+		p("BEGIN %s racelog=%d", spec, raceLogSize())
+
+		var state *dataflow.AnalyzerState
+		var expected []string
+		nflows := 0
+		if nr < 0 {
+			res, err := taint.Analyze(cfg, prog, pkgs)
+			if err != nil {
+				fmt.Fprintln(os.Stderr, "analyze:", err)
+			}
+			state = res.State
+			if res.TaintFlows != nil {
+				for _, srcs := range res.TaintFlows.Sinks {
+					nflows += len(srcs)
 				}
 			}
-			sort.Strings(hs)
-			fmt.Printf("H %s %s %d %s\n", kindOf(f.name), f.name, len(hs), sha(strings.Join(hs, "\n")))
-		}
-	}
-	if state != nil && state.FlowGraph != nil {
-		var names []string
-		for _, s := range state.FlowGraph.Summaries {
-			if s != nil && s.Parent != nil {
-				names = append(names, s.Parent.String()+":")
+		} else {
+			// the steps of taint.Analyze with an explicit numRoutines
+			state, err = dataflow.NewInitializedAnalyzerState(prog, pkgs, config.NewLogGroup(cfg), cfg)
+			if err != nil {
+				fmt.Fprintln(os.Stderr, "state:", err)
+				os.Exit(2)
+			}
+			if err := taint.AnalysisPreamble(state); err != nil {
+				fmt.Fprintln(os.Stderr, "preamble:", err)
+				os.Exit(2)
+			}
+			analysis.RunIntraProceduralPass(state, nr, analysis.IntraAnalysisParams{
+				ShouldBuildSummary: dataflow.ShouldBuildSummary, ShouldTrack: taint.IsNodeOfInterest})
+			expected = summaryNames(state)
+			nflows = -1
+			for i := range state.Config.TaintTrackingProblems {
+				spec := &state.Config.TaintTrackingProblems[i]
+				visitor := taint.NewVisitor(spec)
+				analysis.RunInterProcedural(state, visitor, analysis.InterProceduralParams{
+					IsEntrypoint: func(node ssa.Node) bool { return taint.IsSourceNode(state, spec, node) }})
 			}
 		}
-		sort.Strings(names)
-		fmt.Printf("S %d %s\n", len(names), sha(strings.Join(names, "\n")))
+		// ---- the analysis has returned: everything below is "after return"
+		g1 := runtime.NumGoroutine()
+		atReturn := listReports(rdir)
+		time.Sleep(time.Duration(*settle) * time.Millisecond)
+		g2 := runtime.NumGoroutine()
+		after := listReports(rdir)
+		p("G %d %d %d", g0, g1, g2)
+		if g2 > g0 {
+			buf := make([]byte, 1<<20)
+			n := runtime.Stack(buf, true)
+			for _, l := range strings.Split(string(buf[:n]), "\n") {
+				p("L %s", l)
+			}
+		}
+		sizeAt := map[string]int64{}
+		for _, f := range atReturn {
+			sizeAt[f.name] = f.size
+		}
+		for _, f := range after {
+			b, _ := os.ReadFile(filepath.Join(rdir, f.name))
+			at, ok := sizeAt[f.name]
+			if !ok {
+				at = -1
+			}
+			lines := strings.Split(string(b), "\n")
+			sort.Strings(lines)
+			p("F %s %s %d %d %s %s", kindOf(f.name), f.name, at, f.size, sha(string(b)), sha(strings.Join(lines, "\n")))
+			if kindOf(f.name) == "summaries" {
+				var hs []string
+				for _, l := range strings.Split(string(b), "\n") {
+					if header.MatchString(l) && !strings.HasPrefix(l, "subgraph") && l != "}" {
+						hs = append(hs, l)
+					}
+				}
+				sort.Strings(hs)
+				p("H %s %s %d %s", kindOf(f.name), f.name, len(hs), sha(strings.Join(hs, "\n")))
+				if expected != nil {
+					have := map[string]bool{}
+					for _, h := range hs {
+						have[h] = true
+					}
+					missing := 0
+					first := ""
+					for _, e := range expected {
+						if !have[e] {
+							missing++
+							if first == "" {
+								first = e
+							}
+						}
+					}
+					p("E %d %d %q", len(expected), missing, first)
+				}
+			}
+		}
+		if state != nil && state.FlowGraph != nil {
+			names := summaryNames(state)
+			p("S %d %s", len(names), sha(strings.Join(names, "\n")))
+		}
+		p("T %d", nflows)
+		// let goroutines left behind by this run finish, so that they are not attributed to the next run
+		start := time.Now()
+		g := runtime.NumGoroutine()
+		for g > g0 && time.Since(start) < 60*time.Second {
+			time.Sleep(20 * time.Millisecond)
+			g = runtime.NumGoroutine()
+		}
+		p("END racelog=%d waited_ms=%d g=%d", raceLogSize(), time.Since(start).Milliseconds(), g)
 	}
-	fmt.Printf("T %d\n", nflows)
 }
